@@ -83,6 +83,17 @@ func c17Directed() []c17script {
 			"buy 1 n 0 "+A(6)+" => ok",
 			"own 1 => 0", "own 2 => -",
 		),
+		// C18: the history ENDS in the state whose export is easy to get wrong — a finished Sell-Order
+		// still holding its highest bid, the Dym-Name expired beyond the grace period, nobody completed the
+		// order or took the name over: the bid is escrow that the exported genesis has to list
+		sc("uncompleted-bid-left-on-name-expired-beyond-grace", 0,
+			"reg 0 0 1 "+A(9)+" 1 => ok",
+			"sell 0 n 0 "+A(2)+" 0 => ok",
+			"buy 1 n 0 "+A(3)+" => ok",
+			adv(c17SoDur+1),       // finished, nobody completes
+			adv(c17Year-c17SoDur), // the name has expired
+			adv(c17Grace),         // and the grace period is over
+		),
 		sc("take-over-with-bidless-sell-order", 10,
 			"reg 0 1 1 "+A(8)+" 0 => ok",
 			"sell 0 n 1 "+A(2)+" "+A(5)+" => ok",
